@@ -164,6 +164,11 @@ def module_state(*modules):
                 continue
             if isinstance(v, (dict, list, set, np.ndarray)):
                 items.append((m.__name__, k, fingerprint(v)))
+            elif isinstance(v, type) and getattr(v, "__module__", None) == m.__name__:
+                # mutable class attributes (a cache shared by all instances of a class)
+                for ck, cv in sorted(vars(v).items()):
+                    if not ck.startswith("__") and isinstance(cv, (dict, list, set, np.ndarray)):
+                        items.append((m.__name__, k + "." + ck, fingerprint(cv)))
             elif not isinstance(v, (types.ModuleType, types.FunctionType, type, types.BuiltinFunctionType)) \
                     and hasattr(v, "__dict__") and not callable(v):
                 items.append((m.__name__, k, fingerprint(v)))
